@@ -612,9 +612,16 @@ def rule_d6(F):
     if not cands:
         r.missing("the function of value_cycle.rs that pops the Tarjan stack")
         return r
+    # the test may be made in another function of the module than the one that pops (`strongly_connect` asks, `pop_component` pops)
+    asks_anywhere = []
+    for xb in F.bodies_in(["src/typechecker/value_cycle.rs"]):
+        if not xb.mir or "::tests::" in xb.path:
+            continue
+        xdefs = mir.Defs(xb)
+        asks_anywhere += [(xb.path, bi) for bi, t in mir.calls(xb) if hir.last(mir.callee_def(t) or "") in ("contains", "any", "position", "find", "binary_search", "rposition")
+                          and t["args"] and mir.is_place_op(t["args"][0]) and "stack" in mir.origin_key(xb, xdefs, t["args"][0][1])]
     for b, defs, pops in cands:
-        asks_stack = [bi for bi, t in mir.calls(b) if hir.last(mir.callee_def(t) or "") in ("contains", "any", "position", "find", "binary_search", "rposition")
-                      and t["args"] and mir.is_place_op(t["args"][0]) and "stack" in mir.origin_key(b, defs, t["args"][0][1])]
+        asks_stack = asks_anywhere
         sets, clears = [], []
         for bi, blk in enumerate(b.blocks):
             for st in blk["stmts"]:
